@@ -223,3 +223,7 @@ func c02Exhaustive(w *World, n *ServerNode, devs []*Device) {
 	w.Probe("c02.exhaustive-block")
 	c02Surfaces(w, n, devs)
 }
+
+// checkSurfaces compares the public surfaces (live statistics, sync bitfield)
+// of a node with its model.
+func checkSurfaces(w *World, n *ServerNode, devs []*Device) { c02Surfaces(w, n, devs) }
